@@ -280,6 +280,27 @@ def install_hooks(ex, layout):
     ex.add_call_hook(COMPRESS_PAT["blake2s"], blake)
 
 
+def native_uf(built):
+    """During translator validation the uninterpreted compression functions are interpreted by
+    the NATIVE compression function of the same build (not by the standard): layer 1 validates
+    the call-pattern logic whatever the compression function computes (that is layer 2)."""
+    cache = {}
+
+    def mk(name, call):
+        def impl(idx, vals):
+            r = cache.get((name, vals))
+            if r is None:
+                if len(cache) > 4096:
+                    cache.clear()
+                r = cache[(name, vals)] = list(call(vals))
+            return r[idx]
+        T.UF_IMPL[name] = impl
+    mk("sha2c32", lambda v: built.native("drv_c17_sha2small", {"h": v[:8], "blk": v[8:]})["out"])
+    mk("sha2c64", lambda v: built.native("drv_c17_sha2big", {"h": v[:8], "blk": v[8:]})["out"])
+    mk("keccakf", lambda v: built.native("drv_c17_keccak", {"a": v})["out"])
+    mk("blake2sF", lambda v: built.native("drv_c17_blake2s", {"h": v[:8], "blk": v[8:72], "ctr": v[72], "last": v[73]})["out"])
+
+
 def uf_compress_sha2(w, h, blk):
     return H.uf_sha2(w, h, blk)
 
@@ -706,18 +727,20 @@ def decide_shape(ctx, sh, timeout, validate=True):
             if list(val) != list(nat[name]):
                 raise MachineryError("translator validation failed for %s/%s: dag=%r native=%r"
                                      % (sh.label(), name, val[:8], list(nat[name])[:8]))
+    okres = dict(res)
+    if sample_ok is False:
+        # the call-pattern logic is proved correct modulo the compression function, yet the digest
+        # of this message is wrong: the defect is in the compression function (layer 2)
+        okres["ref_mismatch"] = violation_detail(sh, m, k, nat, rexp, "native digest of a sampled message differs from the reference "
+                                                 "while the call pattern is proved correct modulo the compression function")
     if not pairs:
-        if sample_ok is False:
-            raise MachineryError("terms identical to the specification but native != reference for %s" % sh.label())
-        return dict(res, verdict="ok", how="syntactic", secs=time.time() - t0)
+        return dict(okres, verdict="ok", how="syntactic", secs=time.time() - t0)
     em = BVEmitter()
     diffs = ["(distinct %s %s)" % (em.ref(x, w), em.ref(y, w)) for x, y, w in pairs]
     goal = diffs[0] if len(diffs) == 1 else "(or %s)" % " ".join(diffs)
     v, mod, dt = run_solver(em.script([goal], logic="QF_UFBV"), "z3", timeout)
     if v == "unsat":
-        if sample_ok is False:
-            raise MachineryError("proved equal to the specification but native != reference for %s" % sh.label())
-        return dict(res, verdict="ok", how="z3-ufbv", secs=time.time() - t0, solver_s=dt)
+        return dict(okres, verdict="ok", how="z3-ufbv", secs=time.time() - t0, solver_s=dt)
     tries = []
     if v == "sat":
         model = parse_model(mod)
@@ -754,10 +777,13 @@ def decide_group(ctx, name, bounds, shapes, timeout, validate_every):
     hooked = set()
     unknown = []
     viol = None
+    refmis = None
     for i, sh in enumerate(shapes):
         r = decide_shape(ctx, sh, timeout, validate=(i % validate_every == 0))
         hooked |= r.get("hooked", set())
         solver_s += r.get("solver_s", 0.0)
+        if refmis is None and r.get("ref_mismatch"):
+            refmis = r["ref_mismatch"]
         if r["verdict"] == "ok":
             if r["how"] == "syntactic":
                 nsyn += 1
@@ -783,7 +809,8 @@ def decide_group(ctx, name, bounds, shapes, timeout, validate_every):
         ob.unknown("%d of %d shapes undecided; first: %s" % (len(unknown), len(shapes), unknown[0][:300]), how, dt, len(shapes))
     else:
         ob.ok(how, dt, len(shapes), syntactic=(nsol == 0))
-    ob.c17 = dict(hooked=sorted(hooked), nsyn=nsyn, nsol=nsol, solver_s=solver_s, fam=fam, nshapes=len(shapes))
+    ob.c17 = dict(hooked=sorted(hooked), nsyn=nsyn, nsol=nsol, solver_s=solver_s, fam=fam, nshapes=len(shapes),
+                  ref_mismatch=refmis)
     return ob
 
 
@@ -804,7 +831,7 @@ def _same(x, y):
     return x is y or (not isinstance(x, T.Term) and not isinstance(y, T.Term) and x == y)
 
 
-def sweep(impl_outs, spec_outs, trace, envs, widths, timeout, nthreads, max_iter=5):
+def sweep(impl_outs, spec_outs, trace, envs, widths, timeout, nthreads, max_iter=5, budget=150):
     """Prove impl_outs == spec_outs by word-level sweeping.
 
     Candidate equivalences: every IR term whose value on the simulation inputs equals the value
@@ -859,6 +886,7 @@ def sweep(impl_outs, spec_outs, trace, envs, widths, timeout, nthreads, max_iter
             matches.append(("%s#%d" % (lab, j), st, it, neg, hard))
     cache = {}
     sat_models = []
+    deadline = t0 + budget
 
     def from_models():
         """a failed lemma whose variables are real inputs gives a candidate input: evaluate both
@@ -932,7 +960,10 @@ def sweep(impl_outs, spec_outs, trace, envs, widths, timeout, nthreads, max_iter
                 return lab, "unsat", 0.0, ""
             if script in cache:
                 return (lab,) + cache[script][:1] + (0.0,) + cache[script][2:]
-            v, mod, dt = run_solver(script, "z3", timeout)
+            left = deadline - time.time()
+            if left < 1:
+                return lab, "timeout", 0.0, ""       # wall budget of the obligation exhausted
+            v, mod, dt = run_solver(script, "z3", max(1, min(timeout, left)))
             cache[script] = (v, dt, mod if (lab == "final" or v == "sat") else "")
             return lab, v, dt, mod
         with ThreadPoolExecutor(max_workers=nthreads) as pool:
@@ -964,14 +995,22 @@ def sweep(impl_outs, spec_outs, trace, envs, widths, timeout, nthreads, max_iter
             return stats
         stats["dropped"] += sorted(failed)
         live = [m for m in live if m[0] not in failed]
-    stats.update(status="unknown", final="lemmas kept failing", seconds=time.time() - t0)
+        if sat_models:
+            env = from_models()
+            if env is not None:
+                stats.update(status="differs", env=env, found_by="model of a failed lemma evaluated on both DAGs",
+                             seconds=time.time() - t0)
+                return stats
+        if time.time() > deadline:
+            break
+    stats.update(status="unknown", final="lemmas kept failing or wall budget exhausted", seconds=time.time() - t0)
     env = from_models()
     if env is not None:
         stats.update(status="differs", env=env, found_by="model of a failed lemma evaluated on both DAGs")
     return stats
 
 
-def compress_job(ctx, kind, fname, timeout, nthreads, nsim=3, index=0):
+def compress_job(ctx, kind, fname, timeout, nthreads, nsim=3, index=0, budget=150):
     """one obligation: IR function `fname` == standard round function, frame condition included"""
     built = ctx.built
     m = built.module
@@ -1073,7 +1112,7 @@ def compress_job(ctx, kind, fname, timeout, nthreads, nsim=3, index=0):
                                 "found_by": "simulation input replayed natively"}, "replay", time.time() - t0)
         if not frame:
             return ob.unknown("the function writes outside the chaining value (frame condition not syntactic)", "", time.time() - t0)
-        res = sweep(out, spec, trace, envs[:nsim], widths, timeout, nthreads)
+        res = sweep(out, spec, trace, envs[:nsim], widths, timeout, nthreads, budget=budget)
         ob.c17 = dict(kind=kind, fname=fname, sweep={k: v for k, v in res.items() if k not in ("env",)},
                       ir_terms=len(T.topo(out)), spec_terms=len(T.topo(spec)))
         how = "z3-bv sweeping: %d cut lemmas (%d syntactic), %d queries, %.1fs solver, max %.2fs" % (
@@ -1245,6 +1284,7 @@ def run(tier, only=None):
             raise MachineryError("SHA2Small/SHA2Big layouts differ between instances: %r" % (lay,))
         layout = {"sha2small": small.pop(), "sha2big": big.pop()}
         ctx = Ctx(built, layout)
+        native_uf(built)
         m = built.module
         # pre-parse the module so that forked workers inherit the parsed IR
         for fn_name in list(m.fpos):
@@ -1252,7 +1292,8 @@ def run(tier, only=None):
             for lab in fn.order:
                 m.block(fn, lab)
         fams = sorted(set(FAMILY[t] for t in tags))
-        l2_timeout = 60 if not thorough else 300
+        l2_timeout = 20 if not thorough else 60
+        l2_budget = 150 if not thorough else 600
         l1_timeout = 30 if not thorough else 120
         items = []
         l2_funcs = {}
@@ -1286,7 +1327,7 @@ def run(tier, only=None):
 
         def work(it):
             if it[0] == "l2":
-                return compress_job(ctx, it[1], it[2], l2_timeout, 8 if it[1] == "keccak" else 3, index=it[3])
+                return compress_job(ctx, it[1], it[2], l2_timeout, 8 if it[1] == "keccak" else 3, index=it[3], budget=l2_budget)
             if it[0] == "vec":
                 return vector_job(ctx, it[1])
             name, bounds, shapes = it[1]
@@ -1294,6 +1335,8 @@ def run(tier, only=None):
         res = pmap(work, items, nproc=NCPU, timeout=1500 if not thorough else 2300)
         hooked = {}
         l2_status = {}
+        refmis = {}
+        l2_viol = set()
         stats = dict(shapes=0, syntactic=0, solver=0, l1_solver_s=0.0)
         l2_info = []
         for it, (st, val) in zip(items, res):
@@ -1308,8 +1351,12 @@ def run(tier, only=None):
                     stats["syntactic"] += info.get("nsyn", 0)
                     stats["solver"] += info.get("nsol", 0)
                     stats["l1_solver_s"] += info.get("solver_s", 0.0)
+                    if info.get("ref_mismatch") and info["fam"] not in refmis:
+                        refmis[info["fam"]] = info["ref_mismatch"]
                 elif it[0] == "l2":
                     l2_status[m.resolve(it[2])] = ob.verdict
+                    if ob.verdict == "violated":
+                        l2_viol.add(it[1])
                     l2_info.append(dict(function=it[2], kind=it[1], verdict=ob.verdict, seconds=round(ob.seconds, 1),
                                         ir_terms=info.get("ir_terms"), spec_terms=info.get("spec_terms"),
                                         **{k: v for k, v in info.get("sweep", {}).items()
@@ -1317,10 +1364,20 @@ def run(tier, only=None):
             else:
                 nm = it[1][0] if it[0] == "l1" else "%s:%s" % (it[0], it[1] if it[0] != "vec" else "vectors")
                 o = Obligation(str(nm), "L")
-                o.unknown("%s: %s" % (st, str(val)[-400:]))
+                o.unknown("%s: %s" % (st, str(val).split("\n")[0][:400]))
                 obs.append(o)
                 if "MachineryError" in str(val):
-                    merr = str(val)[-600:]
+                    merr = str(val).split("\n")[0][:600]
+        # a wrong digest under a call pattern that is correct modulo the compression function: the
+        # compression function is wrong.  Layer 2 normally reports it; if it did not, report here.
+        for fam, det in sorted(refmis.items()):
+            if fam not in l2_viol:
+                o = Obligation("e2e:%s" % fam, "L", [], "one sampled message per call shape",
+                               "native digest == reference digest (hashlib / hashspec)")
+                det = dict(det)
+                det["key"] = "%s.compress.e2e" % fam
+                o.fail(det, "replay", 0.0)
+                obs.append(o)
         # the seam: every function that layer 1 replaced must be one that layer 2 proved
         if do_l2:
             for fn, fs in sorted(hooked.items()):
